@@ -251,11 +251,10 @@ namespace Pistache::Http::Header
             os << directiveString(d);
             if (hasDelta(d))
             {
+                // delta-seconds is mandatory for these directives (the parser
+                // requires it), zero included
                 auto delta = d.delta();
-                if (delta.count() > 0)
-                {
-                    os << "=" << delta.count();
-                }
+                os << "=" << delta.count();
             }
 
             if (i < directives_.size() - 1)
